@@ -92,6 +92,11 @@ type Tree struct {
 	Next *Tree  `graphql:"next"`
 }
 
+// Item is what the paginated field p lists.
+type Item struct {
+	Id int64 `graphql:"id,key"`
+}
+
 type enumInfo struct {
 	rt    reflect.Type
 	names []string      // sorted
